@@ -688,6 +688,59 @@ fn sol_at_every_sample() -> Option<String> {
     None
 }
 
+/// C08 / C10: several event functions crossing in one accepted step (forward and backward): every (t_e, y_e) is a root with the
+/// continuous state; with a terminal event, events of the same step earlier than the stop are kept and none later is reported
+fn events_multi_in_step() -> Option<String> {
+    struct Sho { levels: Vec<f64>, terminal: Option<usize> }
+    impl IVP for Sho {
+        fn ode(&self, _t: f64, y: &[f64], d: &mut [f64]) { d[0] = y[1]; d[1] = -y[0]; }
+        fn n_events(&self) -> usize { self.levels.len() }
+        fn events(&self, _t: f64, y: &[f64], out: &mut [f64]) { for (i, l) in self.levels.iter().enumerate() { out[i] = y[0] - l; } }
+        fn event_config(&self, i: usize) -> EventConfig { let mut c = EventConfig::new(); if self.terminal == Some(i) { c.terminal(); } c }
+    }
+    for m in [Method::DOPRI5, Method::DOP853, Method::RK23, Method::RADAU, Method::BDF] {
+        for (x0, xe) in [(0.0, 3.0), (0.0, -3.0)] {
+            for levels in [vec![0.30, 0.31], vec![0.31, 0.30], vec![0.30, 0.32, 0.31]] {
+                let f = Sho { levels: levels.clone(), terminal: None };
+                let s = solve_ivp(&f, x0, xe, &[1.0, 0.0], Options::builder().method(m.clone()).rtol(1e-8).atol(1e-10).dense_output(true).build()).ok()?;
+                for i in 0..levels.len() { for (te, ye) in s.t_events[i].iter().zip(s.y_events[i].iter()) {
+                    if (ye[0] - levels[i]).abs() > 1e-7 { return Some(format!("{:?} on [{}, {}], levels {:?}: event {} at t = {:e} is stored with y0 = {:e}, the level is {}", m, x0, xe, levels, i, te, ye[0], levels[i])); }
+                    if let Ok(v) = s.sol(*te) { if (v[0] - ye[0]).abs() > 1e-7 { return Some(format!("{:?} on [{}, {}], levels {:?}: event {} at t = {:e}: stored state {:e}, sol(t_e) = {:e}", m, x0, xe, levels, i, te, ye[0], v[0])); } }
+                } }
+                // the same run with function 0 terminal: events of the other functions not later than the stop are those of the plain run
+                let ft = Sho { levels: levels.clone(), terminal: Some(0) };
+                let st = solve_ivp(&ft, x0, xe, &[1.0, 0.0], Options::builder().method(m.clone()).rtol(1e-8).atol(1e-10).build()).ok()?;
+                if st.status != Status::UserInterrupt || st.t_events[0].is_empty() { continue; }
+                let stop = st.t_events[0][0]; let sg = if xe > x0 { 1.0 } else { -1.0 };
+                for i in 1..levels.len() {
+                    let want: Vec<f64> = s.t_events[i].iter().copied().filter(|t| (t - stop) * sg <= 0.0).collect();
+                    if st.t_events[i].len() != want.len() || st.t_events[i].iter().zip(want.iter()).any(|(a, b)| (a - b).abs() > 1e-9) {
+                        return Some(format!("{:?} on [{}, {}], levels {:?}, function 0 terminal (stop at t = {:e}): events of function {} are {:?}, the plain run has {:?} up to the stop", m, x0, xe, levels, stop, i, st.t_events[i], want));
+                    }
+                }
+            }
+        }
+    }
+    None
+}
+
+/// C15: a Jacobian supplied in Full or in Banded storage (asymmetric band) gives bit-identical BDF and Radau runs
+fn banded_jacobian_storage() -> Option<String> {
+    use ivp::matrix::{Matrix, MatrixStorage};
+    struct Chain;   // y_i' = -(i+1) y_i + 0.5 y_{i+1} - 0.3 y_{i-1} + 0.1 y_{i-2}^2   (band ml = 2, mu = 1)
+    impl IVP for Chain {
+        fn ode(&self, _t: f64, y: &[f64], d: &mut [f64]) { let n = y.len(); for i in 0..n { let mut v = -((i + 1) as f64) * y[i]; if i + 1 < n { v += 0.5 * y[i + 1]; } if i >= 1 { v -= 0.3 * y[i - 1]; } if i >= 2 { v += 0.1 * y[i - 2] * y[i - 2]; } d[i] = v; } }
+        fn jac(&self, _t: f64, y: &[f64], j: &mut Matrix) { let n = y.len(); for i in 0..n { j[(i, i)] = -((i + 1) as f64); if i + 1 < n { j[(i, i + 1)] = 0.5; } if i >= 1 { j[(i, i - 1)] = -0.3; } if i >= 2 { j[(i, i - 2)] = 0.2 * y[i - 2]; } } }
+    }
+    let y0 = [1.0, 0.8, 0.6, 0.4, 0.2, 0.1];
+    for m in [Method::BDF, Method::RADAU] {
+        let run = |st: MatrixStorage| solve_ivp(&Chain, 0.0, 2.0, &y0, Options::builder().method(m.clone()).rtol(1e-7).atol(1e-9).jac_storage(st).build()).unwrap();
+        let a = run(MatrixStorage::Full); let b = run(MatrixStorage::Banded { ml: 2, mu: 1 });
+        if a.t != b.t || a.y != b.y { return Some(format!("{:?}: Jacobian in Banded {{ ml: 2, mu: 1 }} storage: {} accepted steps, in Full storage {} (the trajectories are not bit-identical)", m, b.naccpt, a.naccpt)); }
+    }
+    None
+}
+
 fn main() {
     let which = std::env::args().nth(1).unwrap_or_default();
     let r = match which.as_str() {
@@ -698,6 +751,8 @@ fn main() {
         "default_mass" => default_mass(),
         "matrix_dense_model" => matrix_dense_model(),
         "lu_small" => lu_small(),
+        "events_multi_in_step" => events_multi_in_step(),
+        "banded_jacobian_storage" => banded_jacobian_storage(),
         "sol_at_every_sample" => sol_at_every_sample(),
         "duplication_invariance" => duplication_invariance(),
         "modified_solution_doubling" => modified_solution_doubling(),
